@@ -22,10 +22,16 @@ func init() { components["combat"] = combatComp{} }
 type combatComp struct{}
 
 // scriptedSource feeds chosen draws to the run's *rand.Rand.
-type scriptedSource struct{ q []int64 }
+type scriptedSource struct {
+	q  []int64
+	fb rand.Source // what an exhausted script falls back to (nil: zeros; a constant stream makes rand.Shuffle spin)
+}
 
 func (s *scriptedSource) Int63() int64 {
 	if len(s.q) == 0 {
+		if s.fb != nil {
+			return s.fb.Int63()
+		}
 		return 0
 	}
 	v := s.q[0]
